@@ -47,6 +47,8 @@ func runC16(f *hx.Flags) {
 				kind = "nested-switch"
 			case k == 1:
 				kind = "empty-map"
+			case k < 6:
+				kind = "root-switch" // the document's ROOT is keyed by the dimension
 			}
 			r.Add(g.docCase(kind))
 		}
